@@ -7,7 +7,7 @@ fc = {}
 for rnd in (2, 3):
     p = 'seeded/round%d_first_contact.json' % rnd
     if os.path.exists(p):
-        d = json.load(open(p)); d.pop('_comment', None)
+        d = json.load(open(p)); d = {k: v for k, v in d.items() if not k.startswith('_')}
         fc[rnd] = d
 for d in sorted(os.listdir('seeded')):
     m = re.match(r'R(\d)(C\d\d)([A-Z])$', d)
